@@ -1,1 +1,1 @@
-/-! STUB — property C13 is not built yet. -/
+import Martian.Model.Verify
